@@ -40,7 +40,7 @@ def requirements(tier):
                              "classes_enumerated": 4 * 18, "owned_value_refused": 100, "list_operations_tried": 80},
             "required_classes": ["kind_wrong_dimension", "kind_negative", "kind_bare_number", "kind_string_object", "kind_hourly_for_scalar",
                                  "kind_scalar_for_hourly", "kind_outside_list", "kind_wrong_class_element", "kind_non_list", "kind_wrong_class_link",
-                                 "kind_forbidden_by_server_type", "kind_owned_by_another_object", "kind_wrong_class_via_insert", "kind_wrong_class_via_append",
+                                 "kind_forbidden_by_server_type", "kind_owned_by_another_object", "kind_unlabelled_computed_value", "kind_wrong_class_via_insert", "kind_wrong_class_via_append",
                                  "kind_wrong_class_via_extend", "kind_wrong_class_via_iadd", "kind_wrong_class_via_setitem"]}
 
 
@@ -101,7 +101,7 @@ def invalid_values(E, cls, pname, kind_of_param, vs, objs, obj_params):
     return out
 
 
-OPTIONAL_REFUSAL = ("owned_by_another_object",)
+OPTIONAL_REFUSAL = ("owned_by_another_object", "unlabelled_computed_value")
 
 
 class ListOp:
@@ -124,6 +124,17 @@ def owned_values(E, spec, objs, target, pname, kind_of_param):
     not prescribed by the property, but a refusal must leave the model as it was (F28)"""
     if kind_of_param not in ("q", "h", "s"):
         return []
+    extra = []
+    cur = getattr(objs[target], pname, None)
+    if kind_of_param in ("q", "h") and isinstance(cur, (E.ExplainableQuantity, E.ExplainableHourlyQuantities)):
+        try:
+            extra.append(("unlabelled_computed_value", cur + cur))      # right type and dimension, computed, no label (F29)
+        except Exception:
+            pass
+    return extra + _owned(E, spec, objs, target, pname, kind_of_param)
+
+
+def _owned(E, spec, objs, target, pname, kind_of_param):
     O = spec["objects"]
     mine = O[target]["params"][pname]
     for n, o in O.items():
